@@ -47,6 +47,8 @@ fn gen_run(rng: &mut Rng, sub: &str, thorough: bool, base: Option<&Params>, via_
             tab_desc_pct: 0,
             utf8_id_pct: 0,
             dup_id_pct: 0,
+            mega_1_in: 0,
+            twin_mega_1_in: 0,
     };
     let records = g.gen(rng);
     let container = gen_container(rng, &records, false, true);
